@@ -64,7 +64,75 @@ type Accept struct {
 	Broadcast string // "IsBroadcast" | "!IsBroadcast" | other descr
 }
 
+// syncUnit: the round step and the private helpers it calls synchronously (not started with go / defer),
+// to depth 3, without closures.
+func syncUnit(top *ssa.Function) map[*ssa.Function]bool {
+	out := map[*ssa.Function]bool{top: true}
+	var add func(f *ssa.Function, d int)
+	add = func(f *ssa.Function, d int) {
+		if d >= 3 {
+			return
+		}
+		for _, b := range f.Blocks {
+			for _, in := range b.Instrs {
+				call, ok := in.(*ssa.Call)
+				if !ok || call.Call.IsInvoke() {
+					continue
+				}
+				h := core.Callee(call)
+				if !core.PrivateHelper(h) || h.Pkg != top.Pkg || out[h] {
+					continue
+				}
+				in := false
+				for _, u := range unitFuncs(top) {
+					if u == h {
+						in = true
+					}
+				}
+				if !in {
+					continue
+				}
+				out[h] = true
+				add(h, d+1)
+			}
+		}
+	}
+	add(top, 0)
+	return out
+}
+
+// enclosingLoopInUnit: the loop of the round step (or of an intermediate helper) inside which the
+// instruction runs: its own function's loop, else the loop around the call through which its function
+// is entered.
+func enclosingLoopInUnit(top *ssa.Function, in ssa.Instruction, d int) *core.Loop {
+	fn := in.Parent()
+	for _, l := range loopsOf(fn) {
+		if l.In[in.Block()] {
+			return l
+		}
+	}
+	if fn == top || d > 3 {
+		return nil
+	}
+	var site ssa.Instruction
+	n := 0
+	for g := range syncUnit(top) {
+		for _, cs := range core.Calls(g) {
+			if c, ok := cs.(*ssa.Call); ok && core.Callee(c) == fn {
+				site = c
+				n++
+			}
+		}
+	}
+	if n != 1 {
+		return nil
+	}
+	return enclosingLoopInUnit(top, site, d+1)
+}
+
 type SendSite struct {
+	// Sync: the send executes in the round step itself or in a private helper it calls synchronously
+	Sync bool
 	Send    *ssa.Send
 	Ctor    *Ctor
 	Call    *ssa.Call
@@ -397,7 +465,7 @@ func extractRound(pr *Protocol, r *Round) {
 		if fn == nil {
 			return nil
 		}
-		for _, g := range core.WithClosures(fn) {
+		for _, g := range unitFuncs(fn) {
 			for _, b := range g.Blocks {
 				for _, in := range b.Instrs {
 					if u, ok := in.(*ssa.UnOp); ok && u.Op == token.MUL {
@@ -417,9 +485,10 @@ func extractRound(pr *Protocol, r *Round) {
 	}
 	r.Scans = arraysRead(r.Fns["Update"])
 	r.StartRead = arraysRead(r.Fns["Start"])
-	// sends on the `out` channel in Start
+	// sends on the `out` channel in Start and in the private helpers it is factored into
 	if st := r.Fns["Start"]; st != nil {
-		for _, g := range core.WithClosures(st) {
+		sync := syncUnit(st)
+		for _, g := range unitFuncs(st) {
 			for _, b := range g.Blocks {
 				for _, in := range b.Instrs {
 					snd, ok := in.(*ssa.Send)
@@ -429,7 +498,7 @@ func extractRound(pr *Protocol, r *Round) {
 					if fr := core.AsFieldLoad(snd.Chan); fr == nil || fr.Name != "out" {
 						continue
 					}
-					site := &SendSite{Send: snd}
+					site := &SendSite{Send: snd, Sync: sync[g]}
 					v := core.Strip(snd.X)
 					if ex, ok := v.(*ssa.Extract); ok {
 						v = ex.Tuple
@@ -444,9 +513,13 @@ func extractRound(pr *Protocol, r *Round) {
 							}
 						}
 					}
-					for _, l := range loopsOf(snd.Parent()) {
-						if l.In[b] {
-							site.InLoop = l
+					if sync[g] {
+						site.InLoop = enclosingLoopInUnit(st, snd, 0)
+					} else {
+						for _, l := range loopsOf(snd.Parent()) {
+							if l.In[b] {
+								site.InLoop = l
+							}
 						}
 					}
 					r.Sends = append(r.Sends, site)
